@@ -517,6 +517,30 @@ inline void u_replaceSame(Env& E) {  // overwrites a value that already holds th
     bool ok = false; HXS_CALL(E, ok = doc["k"].set(x)); return int(ok); });
 }
 
+// overwrites a value that is LINKED to the very buffer the source lives in (stored through const char* just before)
+inline void u_replaceLinkedSameBuffer(Env& E) {
+  Found w{{true, "k"}, {false, E.src->bytes}};
+  freshDoc(E, w, [&](JsonDocument& doc) {
+    const char* p = nullptr;
+    if (!byAddress(E.src->kind)) {
+      if (E.src->kind == StdString) p = E.src->ss->c_str();
+      else if (E.src->kind == ArdString) p = E.src->as->c_str();
+      else if (E.src->kind == CharPtr || E.src->kind == CharArr) p = E.src->buf;
+    }
+    if (p) doc["k"] = p; else doc["k"] = "linked-elsewhere";
+    bool ok = false; HXS_CALL(E, ok = doc["k"].set(x)); return int(ok); });
+}
+// overwrites a value whose copied string has the SAME LENGTH as the new one and is shared with another member
+inline void u_replaceCopiedSameLength(Env& E) {
+  std::string other = E.src->bytes;
+  if (other.empty() || other.size() > kMaxLen) other = "old-copied";
+  else other[other.size() - 1] = char(other[other.size() - 1] ^ 1);
+  Found w{{true, "k"}, {false, E.src->bytes}, {true, "other"}, {false, other}};
+  freshDoc(E, w, [&](JsonDocument& doc) {
+    doc["k"] = other; doc["other"] = other;
+    bool ok = false; HXS_CALL(E, ok = doc["k"].set(x)); return int(ok); });
+}
+
 // copied neighbours (longer, NUL-extended, shorter) live in the same pool: de-duplication must be byte-exact
 inline void u_neighbours(Env& E) {
   const std::string& s = E.src->bytes;
@@ -688,6 +712,48 @@ inline void lookupUse(Env& E, char what, const std::function<std::string(JsonDoc
       return res;                                                                               \
     });                                                                                         \
   }
+// presence lookups when the member holds null, "" or an empty array ("present" and "present and non-null" differ there):
+// no absolute expectation, the answers of all source kinds are compared with each other
+inline void presenceUse(Env& E, const std::function<std::string(JsonDocument&, Source&)>& call) {
+  const std::string& s = E.src->bytes;
+  if (s.size() > kMaxLen) return;
+  for (int variant = 0; variant < 3; variant++) {
+    LedgerAllocator A;
+    {
+      JsonDocument doc(&A);
+      doc["a"] = 1;
+      if (variant == 0) doc[s] = nullptr;
+      else if (variant == 1) doc[s] = "";
+      else doc[s].to<JsonArray>();
+      doc["z"] = 2;
+      Source* src = E.src;
+      std::unique_ptr<Source> local;
+      if (E.scrubMode) { local.reset(new Source(src->kind, src->idx, src->pad)); E.src = local.get(); }
+      std::string res = call(doc, *E.src);
+      E.after();
+      E.src = src;
+      E.obs += "\n#p" + std::to_string(variant) + ":res=" + res + ";";
+      observeDoc(E, doc, "doc");
+      E.outcome = "presence";
+    }
+    ledgerEnd(E, A);
+  }
+}
+#define HXS_PRESENCE(name, expr) \
+  inline void name(Env& E) {                                                                    \
+    presenceUse(E, [](JsonDocument& doc, Source& src) -> std::string {                          \
+      std::string res;                                                                          \
+      src.visit([&](auto& x) { res = expr; });                                                  \
+      return res;                                                                               \
+    });                                                                                         \
+  }
+HXS_PRESENCE(u_prDocContains, std::string(doc.containsKey(x) ? "1" : "0"))
+HXS_PRESENCE(u_prObjContains, std::string(doc.as<JsonObject>().containsKey(x) ? "1" : "0"))
+HXS_PRESENCE(u_prConstObjContains, std::string(doc.as<JsonObjectConst>().containsKey(x) ? "1" : "0"))
+HXS_PRESENCE(u_prVarContains, std::string(doc.as<JsonVariant>().containsKey(x) ? "1" : "0"))
+HXS_PRESENCE(u_prConstVarContains, std::string(doc.as<JsonVariantConst>().containsKey(x) ? "1" : "0"))
+HXS_PRESENCE(u_prDocIsNull, std::string(doc[x].isNull() ? "1" : "0") + (doc[x].isUnbound() ? "U" : "B"))
+HXS_PRESENCE(u_prConstDocIsNull, std::string(static_cast<const JsonDocument&>(doc)[x].isNull() ? "1" : "0") + (static_cast<const JsonDocument&>(doc)[x].isUnbound() ? "U" : "B"))
 HXS_LOOKUP(u_lkDoc, 'i', intOrNull(doc[x]))
 HXS_LOOKUP(u_lkConstDoc, 'i', intOrNull(static_cast<const JsonDocument&>(doc)[x]))
 HXS_LOOKUP(u_lkObj, 'i', intOrNull(doc.as<JsonObject>()[x]))
@@ -831,6 +897,8 @@ static const UseDef kUses[] = {
     {"v.memberSet", u_memberSet, false, false},     {"v.docElement", u_docElement, false, false},
     {"v.elementSet", u_elementSet, false, false},   {"v.replaceCopied", u_replaceCopied, false, false},
     {"v.replaceSame", u_replaceSame, false, false}, {"v.neighbours", u_neighbours, true, false},
+    {"v.replaceLinkedSameBuffer", u_replaceLinkedSameBuffer, false, false},
+    {"v.replaceCopiedSameLength", u_replaceCopiedSameLength, false, false},
 #endif
 #if HXS_IN(2)
     {"k.doc", u_keyDoc, false, false},
@@ -848,6 +916,10 @@ static const UseDef kUses[] = {
 #endif
 #if HXS_IN(4)
     {"l.docContains", u_lkDocContains, false, false},
+    {"p.docContains", u_prDocContains, false, false},   {"p.objContains", u_prObjContains, false, false},
+    {"p.constObjContains", u_prConstObjContains, false, false}, {"p.varContains", u_prVarContains, false, false},
+    {"p.constVarContains", u_prConstVarContains, false, false}, {"p.docIsNull", u_prDocIsNull, false, false},
+    {"p.constDocIsNull", u_prConstDocIsNull, false, false},
     {"l.objContains", u_lkObjContains, false, false},
     {"l.constObjContains", u_lkConstObjContains, false, false},
     {"l.varContains", u_lkVarContains, false, false},
